@@ -477,4 +477,59 @@ v("P14-unlink-missing-ok", [(SV, "        self._socket_path.unlink()\n", "      
 v("P-close-in-session", [(SV, "        try:\n            await session.client_handshake()\n            await session.listen()\n        finally:\n            writer.close()\n", "        try:\n            await session.client_handshake()\n            await session.listen()\n        finally:\n            session.close()\n"),
    (SE, "    async def _parse_command(self, msg: str) -> None:\n", "    def close(self) -> None:\n        self._writer.close()\n\n    async def _parse_command(self, msg: str) -> None:\n")], {"C19": "ok"})
 
+# ---------------------------------------------------------------- spawner registries (C04/C07/C08)
+POP_OLD = """        obsolete_keys, ended_meta_tasks = [], set()
+        for group_name in self._group_meta_tasks_running:
+            still_running = set()
+            while self._group_meta_tasks_running[group_name]:
+                meta_task = self._group_meta_tasks_running[group_name].pop()
+                if meta_task.done():
+                    ended_meta_tasks.add(meta_task)
+                else:
+                    still_running.add(meta_task)
+            if still_running:
+                self._group_meta_tasks_running[group_name] = still_running
+            else:
+                obsolete_keys.append(group_name)
+        # If a group no longer has running meta tasks associated with,
+        # we can remove its name from the dictionary.
+        for group_name in obsolete_keys:
+            del self._group_meta_tasks_running[group_name]
+        return ended_meta_tasks
+"""
+v("60-pop-ended-drops-running", [(P, "                else:\n                    still_running.add(meta_task)\n            if still_running:", "            if still_running:")], {"C04": "R04.6", "C08": "R08.5"})
+v("60b-pop-ended-deletes-all-groups", [(P, "            else:\n                obsolete_keys.append(group_name)\n", "            obsolete_keys.append(group_name)\n")], {"C04": "R04.6"})
+v("60c-pop-ended-rewrite-forgets-untouched-groups", [(P, POP_OLD, """        ended_meta_tasks: Set[Task[Any]] = set()
+        still_running: Dict[str, Set[Task[Any]]] = {}
+        for group_name, meta_tasks in self._group_meta_tasks_running.items():
+            done = {task for task in meta_tasks if task.done()}
+            if not done:
+                continue  # nothing to collect from this group
+            ended_meta_tasks |= done
+            if len(done) < len(meta_tasks):
+                still_running[group_name] = meta_tasks - done
+        self._group_meta_tasks_running = still_running
+        return ended_meta_tasks
+""")], {"C04": "R04.6", "C07": "R07.8"})
+v("60d-spawner-forgets-itself", [(P, "                coroutine.close()\n                return\n\n    def apply(", "                coroutine.close()\n                break\n        self._group_meta_tasks_running.pop(group_name, None)\n\n    def apply(")], {"C04": "R04.5", "C07": "R07.7", "C08": "R08.4"})
+v("60e-pop-ended-returns-running-too", [(P, "                else:\n                    still_running.add(meta_task)\n", "                else:\n                    still_running.add(meta_task)\n                    ended_meta_tasks.add(meta_task)\n")], {"C08": "R08.5"})
+v("P-pop-ended-rewrite-correct", [(P, POP_OLD, """        ended_meta_tasks: Set[Task[Any]] = set()
+        still_running: Dict[str, Set[Task[Any]]] = {}
+        for group_name, meta_tasks in self._group_meta_tasks_running.items():
+            done = {task for task in meta_tasks if task.done()}
+            ended_meta_tasks |= done
+            if len(done) < len(meta_tasks):
+                still_running[group_name] = meta_tasks - done
+        self._group_meta_tasks_running = still_running
+        return ended_meta_tasks
+""")], {"C04": "ok", "C07": "ok", "C08": "ok"})
+v("P-pop-ended-comprehensions", [(P, POP_OLD, """        ended_meta_tasks = {t for ts in self._group_meta_tasks_running.values() for t in ts if t.done()}
+        self._group_meta_tasks_running = {
+            g: {t for t in ts if not t.done()}
+            for g, ts in self._group_meta_tasks_running.items()
+            if {t for t in ts if not t.done()}
+        }
+        return ended_meta_tasks
+""")], {"C04": "ok", "C08": "ok"})
+
 VARIANTS = V
